@@ -298,6 +298,11 @@ async fn network_connect(options: &MqttOptions) -> Result<Network, ConnectionErr
         }
     }
 
+    #[cfg(rumqtt_verif)]
+    if let Some(io) = crate::verif::take_transport() {
+        return Ok(Network::new(io?, max_incoming_pkt_size));
+    }
+
     // Process Unix files early, as proxy is not supported for them.
     #[cfg(unix)]
     if matches!(options.transport(), Transport::Unix) {
